@@ -298,6 +298,10 @@ func c10Eval(c *fw.Ctx, data any) {
 	c.Set("gomaxprocs", fmt.Sprint(cs.Procs))
 
 	s := startStream(conn, cs.Consumer, cs.ParseBefore, cs.ParseAfter, cs.ShutdownAt)
+	if s == nil {
+		constructorWedged(c, "stream")
+		return
+	}
 	for k := 0; k < cs.Outbound; k++ { // the application also sends (echo replies): both directions share the connection
 		h := of.NewEchoReply()
 		select {
